@@ -67,7 +67,7 @@ CONTRACT[K + 'linearCompositions'] = dict(
     raises=[('SequenceException', 'Or(bloblen > self.len, Not(groups_valid(grps)))')], modifies=[],
     returns=lambda it, env: _comp_result(it, env),
     ensures=['positions_ok(result[0], self.len)',
-             'rows_ok(result[1], (STD_GROUPS if length(grps) == 0 else grps), self.len, bloblen, self.seq)'])
+             'rows_ok(result[1], (STD_GROUPS if length(old(grps)) == 0 else old(grps)), self.len, bloblen, self.seq)'])
 STD7 = [['E', 'D'], ['R', 'K'], ['R', 'K', 'E', 'D'], ['Q', 'N', 'S', 'T', 'G', 'H', 'C'], ['A', 'L', 'M', 'I', 'V'], ['F', 'Y', 'W'], ['P']]
 
 
